@@ -25,6 +25,7 @@ type SpecCtx struct {
 	imports map[string]*types.Package
 	inOld  bool
 	this   *Val
+	tsubst map[string]types.Type // callee type parameter name -> type argument at this call
 }
 
 func (sc *SpecCtx) with(name string, v *Val) *SpecCtx {
@@ -297,6 +298,18 @@ func (k oldKey) obj() types.Object { return nil }
 
 // resolveType resolves a type expression.
 func (ex *Exec) resolveType(e ast.Expr, sc *SpecCtx) types.Type {
+	t := ex.resolveType1(e, sc)
+	if sc != nil && sc.tsubst != nil && t != nil {
+		if tp, ok := types.Unalias(t).(*types.TypeParam); ok {
+			if a, ok := sc.tsubst[tp.Obj().Name()]; ok {
+				return a
+			}
+		}
+	}
+	return t
+}
+
+func (ex *Exec) resolveType1(e ast.Expr, sc *SpecCtx) types.Type {
 	if sc == nil {
 		if t := ex.typeOf(e); t != nil {
 			return t
@@ -414,7 +427,7 @@ func (ex *Exec) derefLoc(st *State, p *Val) *Loc {
 		return nil
 	}
 	et := pt.Elem()
-	return &Loc{Heap: true, TKey: typeKey(et), Ref: p.S, Sh: ex.eng.sh.shapeOf(et), T: et}
+	return &Loc{Heap: true, TKey: heapTypeKey(et), Ref: p.S, Sh: ex.eng.sh.shapeOf(et), T: et}
 }
 
 func (ex *Exec) deref(st *State, p *Val, pos token.Pos) *Val {
@@ -489,7 +502,7 @@ func (ex *Exec) stepField(st *State, c cursor, i int, pos token.Pos) cursor {
 		} else {
 			ex.safety(st, "nil-deref", pos, not(eq(pv.S, "0")))
 			et := pt.Elem()
-			c = cursor{loc: &Loc{Heap: true, TKey: typeKey(et), Ref: pv.S, Sh: ex.eng.sh.shapeOf(et), T: et}, t: et}
+			c = cursor{loc: &Loc{Heap: true, TKey: heapTypeKey(et), Ref: pv.S, Sh: ex.eng.sh.shapeOf(et), T: et}, t: et}
 		}
 		t = pt.Elem()
 	}
@@ -1628,7 +1641,7 @@ func (ex *Exec) alloc(st *State, v *Val, t types.Type) *Val {
 		ex.eng.smt.syms[ref].Ax = []string{"(> " + ref + " " + ex.eng.alloc0() + ")"}
 		ex.note("allocation inside a loop: freshness w.r.t. earlier iterations not modelled")
 	}
-	l := &Loc{Heap: true, TKey: typeKey(t), Ref: ref, Sh: ex.eng.sh.shapeOf(t), T: t}
+	l := &Loc{Heap: true, TKey: heapTypeKey(t), Ref: ref, Sh: ex.eng.sh.shapeOf(t), T: t}
 	if v != nil && v.Sh != nil {
 		ex.writeLoc(st, l, v)
 	}
